@@ -147,7 +147,11 @@ def column(draw, n, name, kinds=COLUMN_KINDS):
         col["flavour"] = fl
         col["cells"] = _cells(draw, elem, n, {"f": "nan"} if fl == "ints-nan" else None, mode)
     elif kind == "category":
-        if draw(st.booleans()):
+        if draw(st.integers(0, 2)) == 0:
+            # a few category sets come back again and again, listed in another order (what was inferred for one frame
+            # must not leak into what is inferred for the next)
+            cats = list(draw(st.permutations(draw(st.sampled_from([STR_POOL[:2], STR_POOL[:3], [1, 2, 3], [0, 5]])))))
+        elif draw(st.booleans()):
             cats = draw(st.lists(st.sampled_from(STR_POOL), min_size=1, max_size=4, unique=True))
         else:
             cats = draw(st.lists(st.integers(-3, 9), min_size=1, max_size=4, unique=True))
